@@ -17,6 +17,8 @@ import (
 	"github.com/indexsupply/shovel/wpg"
 
 	"verif/harness/fakepg"
+	"verif/harness/gen"
+	"verif/harness/simnode"
 	"verif/harness/vk"
 )
 
@@ -57,7 +59,134 @@ func c20Binary(c *vk.Case) {
 		}
 		c20BinaryOne(c, bin, variant)
 	}
+	if len(c.Res.Violations) == 0 {
+		c20BinaryShadow(c, bin)
+	}
 	c.SetSig("binary:unknown-source")
+}
+
+// c20BinaryShadow: the file holds integration ig-x switched off, the database holds an enabled integration of the same
+// name; the file takes precedence, so the process runs no task for ig-x (its control integration ig-y runs).
+func c20BinaryShadow(c *vk.Case, bin string) {
+	ctx := context.Background()
+	pg, err := fakepg.New()
+	if err != nil {
+		c.Inconclusive("fakepg: %v", err)
+		return
+	}
+	defer pg.Close()
+	pg.SetSchemaScript(shovel.Schema)
+	pg.InstallSchema()
+	chain := simnode.NewChain(nextChainID(), gen.Content(gen.ChainOpts{Seed: c.R.U64(), MinTxs: 1, MaxTxs: 1}))
+	chain.Grow(6)
+	node := simnode.Global().NewNode(chain)
+	defer node.Retire()
+	mk := func(name, table string, enabled bool) map[string]any {
+		return map[string]any{
+			"name": name, "enabled": enabled, "sources": []any{map[string]any{"name": "src-a", "start": 1, "stop": 3}},
+			"table": map[string]any{"name": table, "columns": []any{map[string]any{"name": "tx_hash", "type": "bytea"}}},
+			"block": []any{map[string]any{"name": "tx_hash", "column": "tx_hash"}},
+		}
+	}
+	pool, err := wpg.NewPool(ctx, pg.URL())
+	if err != nil {
+		c.Inconclusive("pool: %v", err)
+		return
+	}
+	stored := mk("ig-x", "t_x", true)
+	// what ValidateFix adds for a file integration, the dashboard's script adds for a stored one
+	for _, n := range []string{"ig_name", "src_name", "block_num", "tx_idx"} {
+		ty := map[string]string{"ig_name": "text", "src_name": "text", "block_num": "numeric", "tx_idx": "int"}[n]
+		stored["table"].(map[string]any)["columns"] = append(stored["table"].(map[string]any)["columns"].([]any), map[string]any{"name": n, "type": ty})
+		stored["block"] = append(stored["block"].([]any), map[string]any{"name": n, "column": n})
+	}
+	cj, _ := json.Marshal(stored)
+	_, err = pool.Exec(ctx, `insert into shovel.integrations(name, conf) values ($1, $2)`, "ig-x", cj)
+	pool.Close()
+	if err != nil {
+		c.Inconclusive("storing the integration: %v", err)
+		return
+	}
+	dir, err := os.MkdirTemp("", "vc20bin")
+	if err != nil {
+		c.Inconclusive("tmp: %v", err)
+		return
+	}
+	defer os.RemoveAll(dir)
+	conf := map[string]any{
+		"pg_url":       pg.URL(),
+		"eth_sources":  []any{map[string]any{"name": "src-a", "chain_id": 1, "url": node.URL(""), "poll_duration": "50ms"}},
+		"integrations": []any{mk("ig-x", "t_x", false), mk("ig-y", "t_y", true)},
+	}
+	cfj, _ := json.Marshal(conf)
+	cfile := filepath.Join(dir, "config.json")
+	os.WriteFile(cfile, cfj, 0o644)
+	ln, err := net.Listen("tcp", "127.0.0.1:0")
+	if err != nil {
+		c.Inconclusive("listen: %v", err)
+		return
+	}
+	addr := ln.Addr().String()
+	ln.Close()
+	out := &lockedBuf{}
+	cmd := exec.Command(bin, "-config", cfile, "-l", addr)
+	cmd.Dir = dir
+	cmd.Stdout, cmd.Stderr = out, out
+	if err := cmd.Start(); err != nil {
+		c.Inconclusive("starting shovel: %v", err)
+		return
+	}
+	exited := make(chan error, 1)
+	go func() { exited <- cmd.Wait() }()
+	defer func() {
+		cmd.Process.Kill()
+		<-exited
+	}()
+	c.Obs("binary_shadow_runs", 1)
+	c.Evals(1)
+	// the control integration finishes its range (stop 3), then the database goes quiet
+	sawY, sawX := false, false
+	var xStmt string
+	scan := func() {
+		for _, op := range pg.OpLog() {
+			if strings.Contains(op.SQL, "shovel-task-src-a-ig-y") {
+				sawY = true
+			}
+			if strings.Contains(op.SQL, "shovel-task-src-a-ig-x") {
+				sawX, xStmt = true, op.SQL
+			}
+		}
+	}
+	for i := 0; i < 1500; i++ {
+		select {
+		case err := <-exited:
+			exited <- err
+			c.Inconclusive("shovel exited: %v: %s (unsupported: %v)", err, tail(out.String(), 600), pg.Unsupported())
+			return
+		default:
+		}
+		scan()
+		if sawY {
+			break
+		}
+		time.Sleep(20 * time.Millisecond)
+	}
+	if !sawY {
+		c.Inconclusive("the control integration's task never appeared: %s", tail(out.String(), 600))
+		return
+	}
+	time.Sleep(400 * time.Millisecond) // tasks of one start-up are created back to back; the watchdog above did the waiting
+	scan()
+	if us := pg.Unsupported(); len(us) > 0 {
+		c.Inconclusive("fakepg contract left by the real binary: %v", us)
+		return
+	}
+	if sawX {
+		c.Violate("binary:file-disabled-integration-runs-from-database", map[string]any{"statement": firstLines(xStmt, 2), "file": string(cfj), "stored": string(cj)},
+			"the file switches integration ig-x off; the process created a task for the stored copy of the same name: %s", firstLines(xStmt, 1))
+		return
+	}
+	c.Obs("binary_shadow_held", 1)
 }
 
 func c20BinaryOne(c *vk.Case, bin, variant string) {
